@@ -11,6 +11,7 @@ open PedVerif.Checker
 structure Truth where
   realStatic : Bool            -- the function really is a static method
   realSetter : Bool            -- the function really is a property setter
+  realPedantic : Bool          -- the function carries a decorator line spelled @pedantic / @require_kwargs
   implicit : Nat               -- how many leading positional arguments of the call are the implicit self / cls
 deriving Repr
 
@@ -18,7 +19,7 @@ def hasVarPos (f : Fn) : Bool := f.params.any (fun p => p.kind == .varPos)
 
 /-- each source-text flag equals the fact it stands for -/
 def truthful (f : Fn) (t : Truth) : Bool :=
-  f.wantsArgs == hasVarPos f && f.isStatic == t.realStatic && f.isSetter == t.realSetter
+  f.wantsArgs == hasVarPos f && f.isStatic == t.realStatic && f.isSetter == t.realSetter && f.isPedantic == t.realPedantic
 
 /-- the declared default or explicit keyword value that the call uses for a declared parameter -/
 def usedValue (kw : List (NameId × Val)) (p : Param) : Option Val :=
@@ -86,5 +87,13 @@ def keywordCall (t : Truth) (args : List Val) : Bool := args.length ≤ t.implic
     setters) -/
 def exempt (f : Fn) (t : Truth) : Bool :=
   t.realSetter || (f.startsDunder && f.endsDunder && !PedVerif.Gen.CallTables.requireKwargsDunders.contains f.name)
+
+/-- region: the first positional argument is stripped as if it were `self`/`cls` although the call has no implicit
+    argument, it is the only positional, and nothing later notices (the first declared parameter has a default, or the
+    decorator is `require_kwargs`, which checks nothing else) -/
+def regionStripped (f : Fn) (t : Truth) (args : List Val) : Bool :=
+  f.strips && t.implicit == 0 && args.length == 1 &&
+  (f.mode == .requireKwargs || (match f.plain.head? with | some p => p.dflt.isSome | none => true))
+
 
 end PedVerif.Call
